@@ -32,10 +32,10 @@ pub fn universe(name: &str) -> Vec<Key> {
             v
         }
         // the first two layers of the root page: keys with the leading bits 00, 01, 10, 11 (Q4) and
-        // 000 … 111 (Q8)
-        "Q4" | "Q8" => {
-            let n = if name == "Q4" { 4u8 } else { 8 };
-            let shift = if name == "Q4" { 6 } else { 5 };
+        // 000 … 111 (Q8), and all 64 six-bit prefixes (Q64: the last layer of the root page)
+        "Q4" | "Q8" | "Q64" => {
+            let n = if name == "Q4" { 4u8 } else if name == "Q8" { 8 } else { 64 };
+            let shift = if name == "Q4" { 6 } else if name == "Q8" { 5 } else { 2 };
             (0..n)
                 .map(|i| {
                     let mut k = [0x11u8.wrapping_mul(i + 1); 32];
